@@ -1,7 +1,7 @@
 (* Properties/C13.v — Headers and uncles are accepted iff they satisfy the consensus rules.
    Only statements closed by `exact`, with Print Assumptions under each. *)
 From AQ Require Import Lib.Bytes Generated.GenParamsConsensus
-  Consensus.HeaderModel Consensus.HeaderSpec Consensus.HeaderProofs Consensus.BatchProofs Consensus.ChainModel Consensus.ChainProofs Consensus.DifficultyExtraModel Consensus.DifficultyProofs Consensus.AbortModel Consensus.AbortProofs Consensus.KnownProofs.
+  Consensus.HeaderModel Consensus.HeaderSpec Consensus.HeaderProofs Consensus.BatchProofs Consensus.ChainModel Consensus.ChainProofs Consensus.DifficultyExtraModel Consensus.DifficultyProofs Consensus.AbortModel Consensus.AbortProofs Consensus.KnownProofs Consensus.MinimumProofs.
 Local Open Scope Z_scope.
 
 (* verifyHeader accepts exactly when, relative to the parent: number = parent + 1, timestamp strictly later and
@@ -79,6 +79,57 @@ Theorem C13_difficulty_ge_minimum_partial :
     spec_minimum c (h_number p + 1) <= d.
 Proof. exact difficulty_ge_minimum. Qed.
 Print Assumptions C13_difficulty_ge_minimum_partial.
+
+(* FULL: the exact criterion.  For every fork configuration c, every block number `next` and both shapes of the
+   grandparent argument (b = a grandparent is passed; only the HF10 rule reads it), the calculator's result is >= the
+   minimum selected for `next` for EVERY parent and timestamp exactly when minimum_holds c next b (MinimumProofs.v: a
+   decidable table on the rule in force).  minimum_enforced (the partial theorem's premise) implies it; where it is
+   false, a parent of difficulty 0 is a witness. *)
+Theorem C13_difficulty_ge_minimum :
+  forall (c : cfg) (next : Z) (b : bool),
+    minimum_holds c next b = true <->
+    (forall (time : Z) (p : header) (gp : option header) (d : Z),
+       h_number p + 1 = next -> is_some gp = b ->
+       calc_difficulty c time p gp = Ok d -> spec_minimum c next <= d).
+Proof. exact difficulty_ge_minimum_full. Qed.
+Print Assumptions C13_difficulty_ge_minimum.
+
+Theorem C13_minimum_enforced_implies_holds :
+  forall (c : cfg) (next : Z) (gp : option header),
+    minimum_enforced c next gp = true -> minimum_holds c next (is_some gp) = true.
+Proof. exact minimum_enforced_holds. Qed.
+Print Assumptions C13_minimum_enforced_implies_holds.
+
+(* ... decided on every configuration of the generated parameters (all_cfgs: mainnet, testnet, testnet2, testnet3,
+   dev, devclique, test) and every block number >= 1: the result is >= the applicable minimum for every parent,
+   timestamp and grandparent, except on testnet2 (every height but the HF8 reset at 8) and on testnet3 (every
+   height), where for either grandparent shape some parent is sent below it. *)
+Theorem C13_generated_cfgs_difficulty_ge_minimum :
+  forall c : cfg, In c generated_cfgs ->
+  forall next : Z, 1 <= next ->
+    if generated_minimum_table c next
+    then forall time p gp d, h_number p + 1 = next -> calc_difficulty c time p gp = Ok d -> spec_minimum c next <= d
+    else forall b, exists time p gp d,
+           h_number p + 1 = next /\ is_some gp = b /\ calc_difficulty c time p gp = Ok d /\ d < spec_minimum c next.
+Proof. exact generated_cfgs_difficulty_ge_minimum. Qed.
+Print Assumptions C13_generated_cfgs_difficulty_ge_minimum.
+
+Theorem C13_generated_cfgs_are_the_builtin :
+  generated_cfgs = [mainnet_cfg; testnet_cfg; testnet2_cfg; testnet3_cfg; dev_cfg; devclique_cfg; test_cfg] /\
+  (forall c next, generated_minimum_table c next =
+     if chain_id c =? testnet2_chain_id then next =? 8 else if chain_id c =? testnet3_chain_id then false else true).
+Proof. split; [exact generated_cfgs_eq | reflexivity]. Qed.
+Print Assumptions C13_generated_cfgs_are_the_builtin.
+
+(* the testnet3 witness replayed on the Go CalcDifficulty by the directed case (1) of harness/cmd/c13
+   (signature difficulty-below-active-minimum-no-hf2); the testnet2 one is C13_difficulty_ge_minimum_refuted below *)
+Theorem C13_difficulty_ge_minimum_testnet3_refuted :
+  exists time p gp d,
+    In testnet3_cfg generated_cfgs /\
+    calc_difficulty testnet3_cfg time p gp = Ok d /\ h_diff p = spec_minimum testnet3_cfg (h_number p) /\
+    d < spec_minimum testnet3_cfg (h_number p + 1).
+Proof. exact difficulty_ge_minimum_testnet3_refuted. Qed.
+Print Assumptions C13_difficulty_ge_minimum_testnet3_refuted.
 
 (* ... which on the generated mainnet schedule is every height *)
 Theorem C13_mainnet_difficulty_ge_minimum :
